@@ -7,16 +7,16 @@ CONSTANTS
     TamperFields = {"nextAvk"}
     MsgModes = {"k"}
     Twins = FALSE
-    ForgeEpochs = {2, 3, 4}
-    Forge2Pars = {"p"}
+    ForgeEpochs = {3, 4}
+    Forge2Pars = {"q"}
     ForgeKeys = {"A"}
-    ForgePars = {"p", "q"}
+    ForgePars = {"q"}
     ForgeNextAvk = {"A"}
-    ForgeNextPars = {"p"}
+    ForgeNextPars = {"q"}
     ForgeLevels = 2
     MaxAttempts = 2
-    MaxJumps = 1
+    MaxJumps = 0
 SPECIFICATION Spec
 VIEW View
-INVARIANTS ClientSound
+INVARIANTS ClientSound GenPrint
 CHECK_DEADLOCK FALSE
